@@ -185,7 +185,7 @@ func (ad *adapter) FlushClose(t time.Time) (int, int) { return ad.a.FlushCloseOl
 func (ad *adapter) FlushTTC(t, tc time.Time) (int, int) {
 	return ad.a.FlushWithOptions(reassembly.FlushOptions{T: t, TC: tc})
 }
-func (ad *adapter) FlushAll() int                     { return ad.a.FlushAll() }
+func (ad *adapter) FlushAll() int { return ad.a.FlushAll() }
 func (ad *adapter) SetLimits(pc, tot int) {
 	ad.a.MaxBufferedPagesPerConnection, ad.a.MaxBufferedPagesTotal = pc, tot
 }
